@@ -896,7 +896,12 @@ func parseMovementValue(p *Parser, allowMultiple bool, closingToken token.Type) 
 	for p.curToken.Type != closingToken {
 		if p.curToken.Type == token.PORYSWITCH {
 			poryswitchCommands, err := p.parsePoryswitchListStatement(func(p *Parser, allowMultiple bool) ([]token.Token, error) {
-				return parseMovementValue(p, allowMultiple, closingToken)
+				// A brace-delimited case ends at its own closing brace, even inside moves().
+				caseClosingToken := closingToken
+				if allowMultiple {
+					caseClosingToken = token.RBRACE
+				}
+				return parseMovementValue(p, allowMultiple, caseClosingToken)
 			})
 			if err != nil {
 				return nil, err
